@@ -190,4 +190,7 @@ def cached_node_property(name):''')]),
     dict(name="round3: whole-tree stats memoised in the root's info", kind="break",
          edits=[("cotengra/core.py", "            tracker.update_post_step()\n\n        return tracker", "            tracker.update_post_step()\n\n        self.info[self.root][(\"compressed_stats\", chi)] = tracker\n        return tracker")],
          expect=("C02-KEYS", "adhoc")),
+    dict(name="twin: original consulted after the copy only filled its caches", kind="twin", file=CORE,
+         old="        tree.contract_stats()\n        # ... as well as the involved indices and legs of every intermediate,",
+         new="        tree.contract_stats()\n        _ = self.sliced_inds\n        # ... as well as the involved indices and legs of every intermediate,"),
 ]
